@@ -22,7 +22,7 @@ FNV = {
     "fnv_1a_32": (0x811C9DC5, 0x01000193, 2**32),
 }
 ALLOWED_CALLS = {"md5", "sha256", "digest", "unpack", "ord", "list", "tuple", "map", "range", "isinstance", "encode", "append", "<slot>", "len", "enumerate", "zip",
-                 "fnv_1a", "default_md5", "default_sha256", "wraps"}
+                 "fnv_1a", "default_md5", "default_sha256", "wraps", "format", "hex", "int", "bytes", "str", "min", "max"}
 
 
 def _walker(prog):
@@ -190,6 +190,7 @@ def check(prog, rep, tier):
     rep.rule("C18.prefix-stable", "depth flows only into the loop bound", floor=3)
     rep.rule("C18.range", "returned values are unsigned 64-bit (FNV masked, digests read as 'Q' of 8 bytes)", floor=3)
     rep.rule("C18.fnv-kernel", "published FNV-1a constants and kernel; index used as seed", floor=3)
+    rep.rule("C18.int-chain", "the int decorator hashes the key itself in round 0 and the lower-case hex of the previous value in every later round, with the round index as seed", floor=1)
     rep.rule("C18.text-keys", "text keys hash like their UTF-8 bytes (md5/sha256) / code points (FNV, equal for ASCII)", floor=3)
     rep.assume("a function wrapped by the decorators is itself pure (user contract); md5/sha256 are the hashlib functions")
     R = runs(prog)
@@ -221,6 +222,7 @@ def check(prog, rep, tier):
             rep.bad("C18.pure", name, f"calls {sorted(extra)}", f"{name} calls {sorted(extra)}, outside the pure set: the result may depend on more than (key, depth)", f.where())
         else:
             rep.ok("C18.pure", f"{name}: calls {sorted(calls)}")
+    int_chain_rule(rep, R)
     # exactly depth values + prefix stability
     depth = ("p", "depth")
     for name in ("default_fnv_1a", "bytes-decorator", "int-decorator"):
@@ -386,6 +388,132 @@ def check(prog, rep, tier):
             rep.bad("C18.range", n, f"returns {sorted(nshow(p.exit[1]) for p in ps)}", f"{n} is not hashlib.{algo}(key).digest()", f.where())
 
 
+def _round_truth(c, it, first):
+    """truth of a condition on the round index in round 0 (first) / in a later round; None when the index does not decide it"""
+    c = strip_epochs(c)
+    if c[0] == "un" and c[1] == "not":
+        t = _round_truth(c[2], it, first)
+        return None if t is None else not t
+    if c == it:
+        return not first
+    if c[0] == "cmp" and len(c) == 4:
+        a, b, op = c[2], c[3], c[1]
+        if b == it and a[0] == "c":
+            a, b = b, a
+            op = {"<": ">", ">": "<", "<=": ">=", ">=": "<="}.get(op, op)
+        if a == it and b[0] == "c" and isinstance(b[1], int) and not isinstance(b[1], bool):
+            k = b[1]
+            lo, hi = (0, 0) if first else (1, None)  # the index is 0 / at least 1
+            def holds(x):
+                return {"==": x == k, "!=": x != k, "<": x < k, "<=": x <= k, ">": x > k, ">=": x >= k, "is": x == k, "isnot": x != k}.get(op)
+            if first:
+                return holds(0)
+            # later rounds: decided only when the answer is the same for every index >= 1
+            vals = {holds(x) for x in (1, 2, max(k - 1, 1), max(k, 1), k + 1, k + 2)}
+            return vals.pop() if len(vals) == 1 else None
+    return None
+
+
+def _decide_rounds(v, it, first, subst):
+    def f(n):
+        if n in subst:
+            return subst[n]
+        if n[0] == "phi":
+            t = _round_truth(n[1], it, first)
+            if t is not None:
+                return mapx(n[2] if t else n[3], f)
+        return None
+    return mapx(strip_epochs(v), f)
+
+
+def _is_hex_of(v, x) -> bool:
+    """v is the lower-case hex text of x without prefix: f"{x:x}", format(x, "x"), "%x" % x, "{:x}".format(x), hex(x)[2:]"""
+    if v[0] == "fstr" and v[1] == (x,) and len(v) > 2 and v[2] == "{:x}":
+        return True
+    if v[0] == "call" and v[1] == ("g", "format") and v[2] == (x, C("x")) and not v[3]:
+        return True
+    if v[0] == "bin" and v[1] == "%" and v[2] == C("%x") and v[3] in (x, ("tup", (x,))):
+        return True
+    if v[0] == "call" and v[1] == ("m", C("{:x}"), "format") and v[2] == (x,):
+        return True
+    if v[0] in ("slice", "slc") and len(v) >= 4 and v[1] == ("call", ("g", "hex"), (x,), ()) and v[2] == C(2) and v[3] == C(None):
+        return True
+    return False
+
+
+def int_chain_rule(rep, R):
+    f, ps = R["int-decorator"]
+    key = ("p", "key")
+    fn = ("p", "func")
+    bad = None
+    seen = 0
+    for p in ps:
+        if p.exit[0] != "return" or bad:
+            continue
+        calls = [e for e in p.events if e.kind == "call" and e.d.get("fn") == fn]
+        pre = [e for e in calls if not e.loops]
+        inl = [e for e in calls if e.loops]
+        if len(pre) > 1 or len(inl) > 1:
+            bad = ((pre + inl)[-1], f"{len(pre)} call(s) of the wrapped function before the loop and {len(inl)} per round")
+            break
+        for e in pre:
+            a = [strip_epochs(x) for x in e.args]
+            if len(a) < 2 or a[0] != key or a[1] != C(0):
+                bad = (e, f"round 0 is func({', '.join(nshow(x) for x in a)}), not func(key, 0)")
+        if bad or not inl:
+            continue
+        e = inl[0]
+        a = [strip_epochs(x) for x in e.args]
+        its = [strip_epochs(b.value) for b in p.events if b.kind == "bind" and b.loops == e.loops and b.value[0] == "it"]
+        if len(a) < 2 or not its:
+            bad = (e, "the per-round call does not pass (value, round index)")
+            break
+        it = its[0]
+        dom = it[2]
+        start = 0 if dom == ("call", ("g", "range"), (("p", "depth"),), ()) else (1 if dom == ("call", ("g", "range"), (C(1), ("p", "depth")), ()) else None)
+        if start is None:
+            continue  # the loop's shape is C18.exactly-depth's business
+        if start == 0 and pre or start == 1 and not pre:
+            continue  # as above
+        inits = {("hv", b.name, e.loops[-1]): strip_epochs(b.value) for b in p.events if b.kind == "loopinit"}
+        last = {}
+        for b in p.events:
+            if b.kind == "bind" and b.loops == e.loops:
+                last[("hv", b.name, e.loops[-1])] = strip_epochs(b.value)
+        res = strip_epochs(e.d.get("result"))
+        for first in ((True, False) if start == 0 else (False,)):
+            # rounds this path cannot describe (its own conditions on the index exclude them)
+            if any(_round_truth(c.atom, it, first) is (not c.truth) for c in p.conds if it in set(walk(strip_epochs(c.atom)))):
+                continue
+            seen += 1
+            seed = _decide_rounds(a[1], it, first, {})
+            if seed != it and not (first and seed == C(0)):
+                bad = (e, f"round i is seeded with {nshow(a[1])}, not with the round index")
+                break
+            if first:
+                v = _decide_rounds(a[0], it, True, inits)
+                if v != key:
+                    bad = (e, f"round 0 hashes {nshow(v)} (first-round value of {nshow(a[0])}), not the key itself: keys for which that differs hash differently or fail")
+                    break
+            else:
+                v = _decide_rounds(a[0], it, False, {})
+                hvs = [n for n in walk(v) if n[0] == "hv"]
+                if len(set(hvs)) != 1 or not _is_hex_of(v, hvs[0]):
+                    bad = (e, f"a later round hashes {nshow(v)}, not the lower-case hex of the previous value")
+                    break
+                prev = hvs[0]
+                if last.get(prev) != res:
+                    bad = (e, f"a later round starts from {nshow(last.get(prev, prev))}, not from the previous round's value")
+                    break
+                if start == 1 and (inits.get(prev) is None or not pre or inits[prev] != strip_epochs(pre[0].d.get("result"))):
+                    bad = (e, "round 1 does not start from round 0's value")
+                    break
+    if bad:
+        rep.bad("C18.int-chain", "int-decorator", bad[1], f"hash_with_depth_int: {bad[1]}", bad[0].where())
+    elif seen:
+        rep.ok("C18.int-chain", f"int-decorator: key in round 0, hex of the previous value afterwards ({seen} round case(s))")
+
+
 def _mentions_outside_domains(v, depth) -> bool:
     """depth occurs in v other than inside the domain of a loop symbol"""
     if not isinstance(v, tuple) or not v:
@@ -406,6 +534,12 @@ MUTANTS = [
            insert_stmt(None, "hash_with_depth_int", "if depth == 1:\n    return [func(key)]", before="res = []"), rule="C18.prefix-stable"),
     Mutant("int decorator: depth == 1 short-cut with the same first round (same meaning)", _H,
            insert_stmt(None, "hash_with_depth_int", "if depth == 1:\n    return [func(key, 0)]", before="res = []"), expect="silent"),
+    Mutant("int decorator: later rounds hash the decimal text", _H, replace_expr(None, "hash_with_depth_int", "f'{tmp:x}'", "f'{tmp}'"), rule="C18.int-chain"),
+    Mutant("int decorator: later rounds hash upper-case hex", _H, replace_expr(None, "hash_with_depth_int", "f'{tmp:x}'", "f'{tmp:X}'"), rule="C18.int-chain"),
+    Mutant("int decorator: later rounds hash 0x-prefixed hex", _H, replace_expr(None, "hash_with_depth_int", "f'{tmp:x}'", "hex(tmp)"), rule="C18.int-chain"),
+    Mutant("int decorator: hex spelled format(tmp, 'x') (same meaning)", _H, replace_expr(None, "hash_with_depth_int", "f'{tmp:x}'", "format(tmp, 'x')"), expect="silent"),
+    Mutant("int decorator: round 0 seeded with 1", _H, replace_expr(None, "hash_with_depth_int", "func(key, 0)", "func(key, 1)"), rule="C18."),
+    Mutant("int decorator: later rounds seeded with idx - 1", _H, replace_expr(None, "hash_with_depth_int", "func(f'{tmp:x}', idx)", "func(f'{tmp:x}', idx - 1)"), rule="C18.int-chain"),
     Mutant("default_fnv_1a seeds with idx + depth", _H, replace_expr(None, "default_fnv_1a", "fnv_1a(key, idx)", "fnv_1a(key, idx + depth)"), rule="C18."),
     Mutant("fnv_1a drops the mask in the loop", _H, del_stmt(None, "fnv_1a", "hval &= UINT64_T_MAX"), rule="C18."),
     Mutant("fnv_1a multiplies before xor", _H, replace_stmt(None, "fnv_1a", "hval ^= t_str", "hval *= fnv_64_prime\nhval ^= t_str\nhval //= fnv_64_prime\nhval *= fnv_64_prime"), rule="C18.fnv"),
